@@ -622,7 +622,7 @@ func callSSA(i *interpreter, caller *frame, callpos token.Pos, fn *ssa.Function,
 		if ps.initMode && caller != nil && fn.Name() == "init" && fn.Pkg != nil && fn == fn.Pkg.Func("init") {
 			return nil // imported packages are initialised separately, in dependency order
 		}
-		if ps.initMode && strings.HasPrefix(fn.Name(), "init#") && fn.Pkg != nil && strings.HasSuffix(fn.Pkg.Pkg.Path(), "/gotree/cmd") {
+		if ps.initMode && !i.w.cfg.RunCmdInits && strings.HasPrefix(fn.Name(), "init#") && fn.Pkg != nil && strings.HasSuffix(fn.Pkg.Pkg.Path(), "/gotree/cmd") {
 			return nil // flag registration is not executed (C19 reads it statically)
 		}
 		if fn.Pkg != nil && i.harnessPkgs[fn.Pkg] && strings.HasPrefix(fn.Name(), "sx") {
